@@ -76,8 +76,6 @@ Shape(q) ==
      sapType |-> q.sapType, ov3 |-> q.ov3,
      crossable |-> Len(q.iout) = 1 /\ NCanon(q.iout[1]) /\ q.anchorH % q.interval = 0]
 
-FeeOf(q, ch) == ShapeFee(q.rule, Shape(q), ch)
-
 NoShieldedIO(q) == Len(q.sin) + Len(q.sout) + Len(q.oin) + Len(q.oout) + Len(q.iin) + Len(q.iout) = 0
 NoShieldedValue(q) == NAdd(NAdd(NAdd(NSum(q.sin), NSum(q.sout)), NAdd(NSum(q.oin), NSum(q.oout))),
                            NAdd(NSum(q.iin), NSum(q.iout))) = NZero
@@ -86,17 +84,40 @@ NoShieldedValue(q) == NAdd(NAdd(NAdd(NSum(q.sin), NSum(q.sout)), NAdd(NSum(q.oin
 \* transparent pool only for fully transparent flows without memo under the opt-in policy
 MayTransparentChange(q) == q.tpolicy = "allowed" /\ NoShieldedValue(q) /\ ~EffMemo(q)
 CandPools(q) == ShPools \cup (IF MayTransparentChange(q) THEN {"transparent"} ELSE {})
-PoolTarget(q, p) == IF p = "transparent" THEN 1 ELSE TargetCount(q)
 
 \* `SplitPolicy`: as many notes as the target allows while each is worth at least minSplit, judged
 \* on the change that would remain if the targeted number of notes were created
 SplitRule(tc, min, x) ==
     LET ok == {j \in 1..tc : NLe(NMulS(min, j), x)}
     IN  IF ok = {} THEN 1 ELSE MaxOf(ok)
-Basis(q, p)   == NSat(SumIn(q), NAdd(SumOut(q), NOf(FeeOf(q, InPool(p, PoolTarget(q, p))))))
-Notes(q, p)   == IF p = "transparent" THEN 1 ELSE SplitRule(TargetCount(q), q.minSplit, Basis(q, p))
-FeeFin(q, p)  == FeeOf(q, InPool(p, Notes(q, p)))
-Need(q, p)    == NAdd(SumOut(q), NOf(FeeFin(q, p)))    \* what the inputs must cover when change goes to p
+
+(* Everything the predicates below need to know about a request, computed once (TLC evaluates an  *)
+(* operator body at every use; a record is evaluated when it is built).  Per change pool p:       *)
+(*   notes[p]  how many change notes the split policy creates when the change goes to p,          *)
+(*   fee[p]    the ZIP 317 fee of the request shape with those notes,                              *)
+(*   need[p]   outputs + fee[p]: what the inputs must cover.                                       *)
+Facts(q) ==
+    LET in  == SumIn(q)
+        out == SumOut(q)
+        sh  == Shape(q)
+        tc  == TargetCount(q)
+        feeOf(ch) == ShapeFee(q.rule, sh, ch)
+        target(p) == IF p = "transparent" THEN 1 ELSE tc
+        basis(p)  == NSat(in, NAdd(out, NOf(feeOf(InPool(p, target(p))))))
+        notes(p)  == IF p = "transparent" THEN 1 ELSE SplitRule(tc, q.minSplit, basis(p))
+        per(p) == LET n == notes(p)
+                      f == feeOf(InPool(p, n))
+                  IN  [notes |-> n, fee |-> f, need |-> NAdd(out, NOf(f)), top |-> feeOf(InPool(p, target(p)))]
+    IN  [in |-> in, out |-> out, sh |-> sh, thr |-> Thr(q), nu63 |-> Nu63(q), memo |-> EffMemo(q),
+         fee0 |-> feeOf(NoChange), cand |-> CandPools(q), mayT |-> MayTransparentChange(q),
+         pool |-> [transparent |-> per("transparent"), sapling |-> per("sapling"),
+                   orchard |-> per("orchard"), ironwood |-> per("ironwood")]]
+
+\* the same quantities as plain operators (used by MC_ChangeStrategy's witness)
+FeeOf(q, ch) == ShapeFee(q.rule, Shape(q), ch)
+Notes(q, p)  == Facts(q).pool[p].notes
+FeeFin(q, p) == Facts(q).pool[p].fee
+Need(q, p)   == Facts(q).pool[p].need
 
 (* ------------------------------------------------------------------------------------------ *)
 (* Outcome o (every field always present):                                                    *)
@@ -106,43 +127,48 @@ Need(q, p)    == NAdd(SumOut(q), NOf(FeeFin(q, p)))    \* what the inputs must c
 (*   dt, ds, do, di                              1-based indices of the inputs named as dust  *)
 (*   e        "overflow" | "underflow" | "p2sh" | other                                       *)
 
-Real(o) == SelectSeq(o.change, LAMBDA c : ~c.eph)
-Ephs(o) == SelectSeq(o.change, LAMBDA c : c.eph)
 CountIn(s, p) == Len(SelectSeq(s, LAMBDA c : c.pool = p))
-Manifest(o) == [t |-> CountIn(Real(o), "transparent"), e |-> Len(Ephs(o)),
-                s |-> CountIn(Real(o), "sapling"), o |-> CountIn(Real(o), "orchard"),
-                i |-> CountIn(Real(o), "ironwood")]
 Values(s) == [j \in 1..Len(s) |-> s[j].v]
-ChangeTotal(o) == NSum(Values(Real(o)))
+Manifest(o) ==
+    LET real == SelectSeq(o.change, LAMBDA c : ~c.eph)
+    IN  [t |-> CountIn(real, "transparent"), e |-> Len(o.change) - Len(real),
+         s |-> CountIn(real, "sapling"), o |-> CountIn(real, "orchard"), i |-> CountIn(real, "ironwood")]
 
-\* an ephemeral output, when listed among the change values, is exactly the requested one; its value
-\* is part of Sigma out either way
-EphOK(q, o) ==
-    /\ Len(Ephs(o)) <= 1
-    /\ Len(Ephs(o)) = 1 => /\ q.ephK = "out" /\ Ephs(o)[1].v = q.ephV
-                           /\ Ephs(o)[1].pool = "transparent" /\ ~Ephs(o)[1].memo
+\* what the predicates need to know about a returned balance, computed once
+\*   real: the change values proper; ephs: ephemeral outputs listed as change; man: their counts;
+\*   total: the change total; final: the ZIP 317 fee of the final shape (request + change + padding)
+Answer(q, d, o) ==
+    LET real == SelectSeq(o.change, LAMBDA c : ~c.eph)
+        man  == Manifest(o)
+    IN  [real |-> real, ephs |-> SelectSeq(o.change, LAMBDA c : c.eph), man |-> man,
+         total |-> NSum(Values(real)),
+         orchard |-> NSum(Values(SelectSeq(real, LAMBDA c : c.pool = "orchard"))),
+         final |-> NOf(ShapeFee(q.rule, d.sh, man))]
+
+\* an ephemeral output, when listed among the change values, is exactly the requested one
+EphOK(q, a) ==
+    /\ Len(a.ephs) <= 1
+    /\ Len(a.ephs) = 1 => /\ q.ephK = "out" /\ a.ephs[1].v = q.ephV
+                          /\ a.ephs[1].pool = "transparent" /\ ~a.ephs[1].memo
 
 \* Sigma in = Sigma out + Sigma change + fee, exactly (the ephemeral output is part of Sigma out and
 \* is not counted a second time when it is also listed as a change value)
-Conservation(q, o) == SumIn(q) = NAdd(NAdd(SumOut(q), ChangeTotal(o)), o.fee)
+Conservation(d, a, o) == d.in = NAdd(NAdd(d.out, a.total), o.fee)
 
 \* no non-zero change below the dust threshold unless the policy allows it; AddDustToFee keeps
 \* dust change only when folding it would overpay by more than FoldCap
-DustOK(q, o) ==
-    LET t == ChangeTotal(o)
-    IN  \/ t = NZero
-        \/ NLe(Thr(q), t)
-        \/ q.act = "allow"
-        \/ (q.act = "addfee" /\ NLt(NOf(FoldCap), t))
+DustOK(q, d, a) ==
+    \/ a.total = NZero
+    \/ NLe(d.thr, a.total)
+    \/ q.act = "allow"
+    \/ (q.act = "addfee" /\ NLt(NOf(FoldCap), a.total))
 
 \* after NU6.3 no value may enter the Orchard pool: Orchard change only from Orchard inputs and
 \* strictly less than they remove
-TurnstileOK(q, o) ==
-    Nu63(q) => \/ Manifest(o).o = 0
-               \/ NLt(NSum(Values(SelectSeq(Real(o), LAMBDA c : c.pool = "orchard"))), NSum(q.oin))
+TurnstileA(q, d, a) == d.nu63 => (a.man.o = 0 \/ NLt(a.orchard, NSum(q.oin)))
 
 \* the recorded padding is the padding of the final shape
-DummyOK(q, o) == o.hasDummy /\ o.dummy = Dummies(Shape(q), Manifest(o))
+DummyOK(d, a, o) == o.hasDummy /\ o.dummy = Dummies(d.sh, a.man)
 
 \* equal notes, the remainder of the division on the first
 SplitValues(r) ==
@@ -151,67 +177,66 @@ SplitValues(r) ==
         /\ NLe(r[2].v, r[1].v)
         /\ NLt(NSub(r[1].v, r[2].v), NOf(Len(r)))
 
-FinalFee(q, o) == NOf(FeeOf(q, Manifest(o)))
-
 \* --- the ways a balance may look ---
 \* no change output: the fee is exactly the fee of that shape
-Changeless(q, o) == Real(o) = << >> /\ o.fee = FinalFee(q, o)
+Changeless(a, o) == a.real = << >> /\ o.fee = a.final
 
 \* change outputs, all in one pool, as many as the split policy says; fee exactly the fee of the final shape
-Simple(q, o) ==
-    /\ Real(o) # << >>
-    /\ \E p \in CandPools(q) :
-         /\ \A j \in 1..Len(Real(o)) : Real(o)[j].pool = p
-         /\ Len(Real(o)) = Notes(q, p)
-         /\ p = "transparent" => Real(o)[1].v # NZero
-    /\ o.fee = FinalFee(q, o)
-    /\ SplitValues(Real(o))
+Simple(d, a, o) ==
+    /\ a.real # << >>
+    /\ \E p \in d.cand :
+         /\ \A j \in 1..Len(a.real) : a.real[j].pool = p
+         /\ Len(a.real) = d.pool[p].notes
+         /\ p = "transparent" => a.real[1].v # NZero
+    /\ o.fee = a.final
+    /\ SplitValues(a.real)
 
 \* the named exception: a zero-valued transparent change output is omitted although the fee counts it
-ZeroTransparentChangeOmitted(q, o) ==
-    /\ MayTransparentChange(q) /\ Real(o) = << >>
-    /\ o.fee = NOf(FeeOf(q, [Manifest(o) EXCEPT !.t = 1]))
+ZeroTransparentChangeOmitted(q, d, a, o) ==
+    /\ d.mayT /\ a.real = << >>
+    /\ o.fee = NOf(ShapeFee(q.rule, d.sh, [a.man EXCEPT !.t = 1]))
 
 \* AddDustToFee: change below the threshold (and at most FoldCap) is added to the fee of the shape
 \* that would have carried it; no change output remains, or a single zero-valued one for the memo
-DustFolded(q, o) ==
+DustFolded(q, d, a, o) ==
     /\ q.act = "addfee"
-    /\ \/ Real(o) = << >>
-       \/ (Len(Real(o)) = 1 /\ Real(o)[1].v = NZero /\ Real(o)[1].pool \in ShPools)
-    /\ NLe(FinalFee(q, o), o.fee)
-    /\ \E p \in (IF Real(o) = << >> THEN CandPools(q) ELSE {Real(o)[1].pool}) :
-         /\ NLe(Need(q, p), SumIn(q))
-         /\ LET d == NSub(SumIn(q), Need(q, p))
-            IN  /\ NLt(d, Thr(q)) /\ NLe(d, NOf(FoldCap))
-                /\ o.fee = NAdd(NOf(FeeFin(q, p)), d)
+    /\ \/ a.real = << >>
+       \/ (Len(a.real) = 1 /\ a.real[1].v = NZero /\ a.real[1].pool \in ShPools)
+    /\ NLe(a.final, o.fee)
+    /\ \E p \in (IF a.real = << >> THEN d.cand ELSE {a.real[1].pool}) :
+         /\ NLe(d.pool[p].need, d.in)
+         /\ LET dust == NSub(d.in, d.pool[p].need)
+            IN  /\ NLt(dust, d.thr) /\ NLe(dust, NOf(FoldCap))
+                /\ o.fee = NAdd(NOf(d.pool[p].fee), dust)
 
-BalanceOK(q, o) ==
-    /\ ~UnknownInput(q) /\ ~BundleRefused(Shape(q))
-    /\ EphOK(q, o)
-    /\ Conservation(q, o)
+BalanceA(q, d, a, o) ==
+    /\ ~UnknownInput(q) /\ ~BundleRefused(d.sh)
+    /\ EphOK(q, a)
+    /\ Conservation(d, a, o)
     /\ \A j \in 1..Len(o.change) : o.change[j].memo => q.memo
-    /\ \/ Changeless(q, o) \/ Simple(q, o) \/ ZeroTransparentChangeOmitted(q, o) \/ DustFolded(q, o)
-    /\ DustOK(q, o)
-    /\ TurnstileOK(q, o)
-    /\ DummyOK(q, o)
+    /\ \/ Changeless(a, o) \/ Simple(d, a, o) \/ ZeroTransparentChangeOmitted(q, d, a, o) \/ DustFolded(q, d, a, o)
+    /\ DustOK(q, d, a)
+    /\ TurnstileA(q, d, a)
+    /\ DummyOK(d, a, o)
+BalanceD(q, d, o) == BalanceA(q, d, Answer(q, d, o), o)
 
 \* --- refusals ---
 \* InsufficientFunds{available, required}: available is the input total, really smaller than
 \* required, and required is outputs + the fee of a shape the strategy may emit (no change; or the
 \* change notes it must create), or -- under Reject -- what would lift the change to the threshold.
 \* A fully transparent request that balances exactly without change must not be refused.
-InsufficientOK(q, o) ==
-    /\ ~BundleRefused(Shape(q))
-    /\ o.available = SumIn(q)
-    /\ NLt(SumIn(q), o.required)
-    /\ ~(NoShieldedIO(q) /\ ~EffMemo(q) /\ SumIn(q) = NAdd(SumOut(q), NOf(FeeOf(q, NoChange))))
-    /\ \/ o.required = NAdd(SumOut(q), NOf(FeeOf(q, NoChange)))
-       \/ \E p \in CandPools(q) : o.required = Need(q, p)
+InsufficientD(q, d, o) ==
+    /\ ~BundleRefused(d.sh)
+    /\ o.available = d.in
+    /\ NLt(d.in, o.required)
+    /\ ~(NoShieldedIO(q) /\ ~d.memo /\ d.in = NAdd(d.out, NOf(d.fee0)))
+    /\ \/ o.required = NAdd(d.out, NOf(d.fee0))
+       \/ \E p \in d.cand : o.required = d.pool[p].need
        \/ /\ q.act = "reject"
-          /\ \E p \in CandPools(q) :
-               /\ NLt(Need(q, p), SumIn(q))
-               /\ NLt(NSub(SumIn(q), Need(q, p)), Thr(q))
-               /\ o.required = NAdd(Need(q, p), Thr(q))
+          /\ \E p \in d.cand :
+               /\ NLt(d.pool[p].need, d.in)
+               /\ NLt(NSub(d.in, d.pool[p].need), d.thr)
+               /\ o.required = NAdd(d.pool[p].need, d.thr)
 
 \* DustInputs: only inputs worth at most the marginal fee are ever named (necessary condition)
 NamedOK(idx, vals, m) ==
@@ -224,37 +249,43 @@ DustInputsOK(q, o) ==
     /\ NamedOK(o.do, q.oin, q.rule.m) /\ NamedOK(o.di, q.iin, q.rule.m)
 
 \* an amount computation may be refused only when some total really leaves the valid range
-TopFee(q) == MaxOf({FeeOf(q, InPool(p, PoolTarget(q, p))) : p \in ShPools \cup {"transparent"}})
-NearOverflow(q) ==
-    NLt(MaxMoney, NAdd(NAdd(NMax(SumIn(q), SumOut(q)), Thr(q)), NOf(TopFee(q) + FoldCap)))
-StrategyOK(q, o) ==
+NearOverflowD(d) ==
+    LET top == MaxOf({d.pool[p].top : p \in ShPools \cup {"transparent"}})
+    IN  NLt(MaxMoney, NAdd(NAdd(NMax(d.in, d.out), d.thr), NOf(top + FoldCap)))
+StrategyD(q, d, o) ==
     \/ (o.e = "p2sh" /\ UnknownInput(q))
-    \/ (o.e = "overflow" /\ NearOverflow(q))
+    \/ (o.e = "overflow" /\ NearOverflowD(d))
 
-Allowed(q, o) ==
-    CASE o.k = "balance"      -> BalanceOK(q, o)
-      [] o.k = "insufficient" -> InsufficientOK(q, o)
+AllowedD(q, d, o) ==
+    CASE o.k = "balance"      -> BalanceD(q, d, o)
+      [] o.k = "insufficient" -> InsufficientD(q, d, o)
       [] o.k = "dust"         -> DustInputsOK(q, o)
-      [] o.k = "strategy"     -> StrategyOK(q, o)
-      [] o.k = "bundle"       -> BundleRefused(Shape(q))
+      [] o.k = "strategy"     -> StrategyD(q, d, o)
+      [] o.k = "bundle"       -> BundleRefused(d.sh)
       [] OTHER                -> FALSE       \* a panic is never an answer
+
+Allowed(q, o) == AllowedD(q, Facts(q), o)
+TurnstileOK(q, o) == LET d == Facts(q) IN TurnstileA(q, d, Answer(q, d, o))
 
 (* ------------------------------------------------------------------------------------------ *)
 (* Which clause fails: printed next to a rejected trace record (diagnostics only).            *)
 Diagnose(q, o) ==
-    IF o.k = "balance" THEN
-        [kind |-> "balance", sumIn |-> SumIn(q), sumOut |-> SumOut(q), finalShapeFee |-> FinalFee(q, o),
-         inputsKnown |-> ~UnknownInput(q), bundleOk |-> ~BundleRefused(Shape(q)), ephemeral |-> EphOK(q, o),
-         conservation |-> Conservation(q, o),
-         feeMode |-> [changeless |-> Changeless(q, o), simple |-> Simple(q, o),
-                      zeroTransparentChangeOmitted |-> ZeroTransparentChangeOmitted(q, o), dustFolded |-> DustFolded(q, o)],
-         notesWanted |-> [p \in CandPools(q) |-> Notes(q, p)],
-         dust |-> DustOK(q, o), turnstile |-> TurnstileOK(q, o), dummy |-> DummyOK(q, o),
-         dummyWanted |-> Dummies(Shape(q), Manifest(o))]
-    ELSE IF o.k = "insufficient" THEN
-        [kind |-> "insufficient", sumIn |-> SumIn(q), sumOut |-> SumOut(q),
-         availableIsSumIn |-> o.available = SumIn(q), reallySmaller |-> NLt(SumIn(q), o.required),
-         feeNoChange |-> FeeOf(q, NoChange), need |-> [p \in CandPools(q) |-> Need(q, p)], threshold |-> Thr(q)]
-    ELSE [kind |-> o.k, sumIn |-> SumIn(q), sumOut |-> SumOut(q), nearOverflow |-> NearOverflow(q),
-          unknownInput |-> UnknownInput(q), bundleRefused |-> BundleRefused(Shape(q))]
+    LET d == Facts(q)
+        a == Answer(q, d, o)
+    IN  IF o.k = "balance" THEN
+            [kind |-> "balance", sumIn |-> d.in, sumOut |-> d.out, finalShapeFee |-> a.final,
+             inputsKnown |-> ~UnknownInput(q), bundleOk |-> ~BundleRefused(d.sh), ephemeral |-> EphOK(q, a),
+             conservation |-> Conservation(d, a, o),
+             feeMode |-> [changeless |-> Changeless(a, o), simple |-> Simple(d, a, o),
+                          zeroTransparentChangeOmitted |-> ZeroTransparentChangeOmitted(q, d, a, o),
+                          dustFolded |-> DustFolded(q, d, a, o)],
+             notesWanted |-> [p \in d.cand |-> d.pool[p].notes],
+             dust |-> DustOK(q, d, a), turnstile |-> TurnstileA(q, d, a), dummy |-> DummyOK(d, a, o),
+             dummyWanted |-> Dummies(d.sh, a.man)]
+        ELSE IF o.k = "insufficient" THEN
+            [kind |-> "insufficient", sumIn |-> d.in, sumOut |-> d.out,
+             availableIsSumIn |-> o.available = d.in, reallySmaller |-> NLt(d.in, o.required),
+             feeNoChange |-> d.fee0, need |-> [p \in d.cand |-> d.pool[p].need], threshold |-> d.thr]
+        ELSE [kind |-> o.k, sumIn |-> d.in, sumOut |-> d.out, nearOverflow |-> NearOverflowD(d),
+              unknownInput |-> UnknownInput(q), bundleRefused |-> BundleRefused(d.sh)]
 =========================================================================================
